@@ -22,6 +22,7 @@ H = {
     "k_model_eval_33": ("thorough", 400, 1200, "3x2 model: every element written", None),
     "k_band_dataflow_f64": ("quick", 300, 600, "confidence_band_radius: quantile looked up once at ((p+1)/2, dof as f64); entry i = t*sigma_i; one entry per sample", None),
     "k_band_quantile_argument_all_p": ("quick", 300, 1800, "for EVERY f64 p in (0,1): the quantile is looked up once at exactly ((p+1)/2, dof) and the entry is t*sigma", None),
+    "k_band_quantile_argument_all_p_f32": ("quick", 300, 1800, "f32, for EVERY p in (0,1): quantile level formed in f64 as ((p as f64)+1)/2", None),
     "k_band_dataflow_f32": ("quick", 300, 600, "same for f32: product formed in f64 and rounded once", None),
     "k_band_rejects_bad_probability": ("quick", 300, 600, "EVERY f64 p outside (0,1) (incl. NaN, inf) panics: code after the call unreachable", None),
     "k_band_accepts_open_interval": ("quick", 300, 600, "every f64 p inside (0,1) is accepted without panic", None),
@@ -53,7 +54,7 @@ K_PROPS = {
     "C10": ["k_model_eval_22", "k_copy_matrix_to_column", "k_model_eval_33"],
     "C11": ["k_into_sequential_preserves_state"],
     "C13": ["k_extract_concat_u32"],
-    "C14": ["k_band_quantile_argument_all_p", "k_band_dataflow_f64", "k_band_dataflow_f32", "k_band_rejects_bad_probability", "k_band_accepts_open_interval", "k_band_monotone_in_t_f32"],
+    "C14": ["k_band_quantile_argument_all_p", "k_band_quantile_argument_all_p_f32", "k_band_dataflow_f64", "k_band_dataflow_f32", "k_band_rejects_bad_probability", "k_band_accepts_open_interval", "k_band_monotone_in_t_f32"],
     "C16": [f"k_arity_{i}" for i in range(1, 11)],
     "C17": ["k_model_eval_22", "k_model_eval_23", "k_model_eval_12", "k_model_eval_20"],
 }
@@ -169,7 +170,7 @@ def native_grid(prop, tier, seed):
     if prop == "C04":
         cases += [("fitmap", {}), ("fwsmap", {})]
     if prop == "C12":
-        cases += [("fwsmap", {})]
+        cases += [("fwsmap", {}), ("statsfit", {})]
     if prop == "C18":
         for have_y in (0, 1):
             for x in range(0, 4):
@@ -191,6 +192,9 @@ def native_grid(prop, tier, seed):
             part["states"] += 1
             part["traces_validated"] += 1
             bad = [("crash-or-hang", d.get("log", "")[-300:])] if d.get("crash") else [f for f in d["out"]["facts"] if not f[1]]
+            if not d.get("crash") and any(str(n).startswith("VERIF-UNSUPPORTED") for n in d["out"].get("notes", [])):
+                part["tool_errors"].append(f"{sc}: {d['out']['notes'][0]}")
+                continue
             if not d.get("crash"):
                 import engine_r as er
                 bad += [b for b in er.numeric_failures(d, ["C09", "C08"]) if b[2] != "fact"]
